@@ -130,8 +130,14 @@ def ident_site(repo: Repo) -> List[Ob]:
         if fi.node.name in ("__eq__", "__repr__", "__hash__"):
             continue
         pv = _Prov(repo, fi)
-        props = ("C18", "C17") if fi.node.name in ("combine", "resize_fock", "measure", "reorder") else ("C18",)
+        base_props = ("C18", "C17") if fi.node.name in ("combine", "resize_fock", "measure", "reorder") else ("C18",)
+        # membership tests that decide whether a request is rejected (`if x not in (…): raise` / assert): also C17
+        rejecting = set()
+        for g in walk_no_nested(fi.node):
+            if (isinstance(g, ast.If) and any(isinstance(y, ast.Raise) for b in g.body + g.orelse for y in [b] + list(walk_no_nested(b)))) or isinstance(g, ast.Assert):
+                rejecting |= {id(y) for y in ast.walk(g.test)}
         for n in sorted(walk_no_nested(fi.node), key=lambda x: (getattr(x, "lineno", 0), getattr(x, "col_offset", 0))):
+            props = base_props if (id(n) not in rejecting or "C17" in base_props) else base_props + ("C17",)
             probe = cont = None
             how = None
             if isinstance(n, ast.Compare) and len(n.ops) == 1 and isinstance(n.ops[0], (ast.In, ast.NotIn)):
